@@ -18,6 +18,8 @@ import CBV.Lemmas.C19
 import CBV.Lemmas.C19Geo
 import CBV.Lemmas.C19Rim
 import CBV.Lemmas.C19Rev
+import CBV.Model.C19Merge
+import Mathlib.Data.List.Basic
 import Mathlib.Analysis.Real.Sqrt
 import Mathlib.Tactic.NormNum
 import CBV.Gen.TC19
@@ -787,6 +789,59 @@ example : (3 / 5 : Rat) * (3 / 5) + (4 / 5) * (4 / 5) = 1 ∧ P3.nsq (⟨0, 1, 0
       = some ([⟨-7 / 25, 7, -24 / 25⟩], [⟨-117 / 125, 7, -44 / 125⟩]) := by decide +kernel
 
 end revolved
+
+
+/-! ### round 6e — `MappedSketch.merge` -/
+
+/-- `MappedSketch.merge` for ALL sketches (positions of any decidable type, any quads): the merged sketch has the faces of the first
+    sketch followed by those of the second (so face `len(first) + f` is face `f` of the second: what `faceCount` and `T_C19_mod3_grid`
+    rely on); every index of the first sketch still addresses its point; every re-indexed index of the second sketch addresses the
+    very point it addressed before; a point of the second sketch that the first one has too gets the first sketch's index (the two
+    sketches are stitched), and two indices of the second sketch at the same point get the same new index -/
+theorem T_C19_merge {α : Type} [DecidableEq α] (s1 s2 : Mapped α) (d : α) :
+    (mergeMapped s1 s2 d).quads.length = s1.quads.length + s2.quads.length ∧
+    (mergeMapped s1 s2 d).quads.take s1.quads.length = s1.quads ∧
+    (∀ i, i < s1.positions.length → (mergeMapped s1 s2 d).point d i = s1.point d i) ∧
+    (∀ i, i < s2.positions.length →
+      (mergeMapped s1 s2 d).point d (reindex s1.positions s2.positions d i) = s2.point d i ∧
+      (s2.point d i ∈ s1.positions →
+        reindex s1.positions s2.positions d i = s1.positions.idxOf (s2.point d i) ∧
+        reindex s1.positions s2.positions d i < s1.positions.length) ∧
+      ∀ i', s2.point d i' = s2.point d i → reindex s1.positions s2.positions d i' = reindex s1.positions s2.positions d i) := by
+  refine ⟨by simp [mergeMapped], by simp [mergeMapped], ?_, ?_⟩
+  · intro i hi
+    simp [Mapped.point, mergeMapped, mergePositions, List.getD_eq_getElem?_getD, List.getElem?_append_left hi]
+  · intro i hi
+    have hmem2 : s2.positions.getD i d ∈ s2.positions := by
+      rw [List.getD_eq_getElem?_getD, List.getElem?_eq_getElem hi]
+      exact List.getElem_mem hi
+    have hmem : s2.positions.getD i d ∈ mergePositions s1.positions s2.positions := by
+      unfold mergePositions
+      by_cases h1 : s2.positions.getD i d ∈ s1.positions
+      · exact List.mem_append_left _ h1
+      · exact List.mem_append_right _ (List.mem_filter.mpr ⟨hmem2, by simpa using h1⟩)
+    refine ⟨?_, ?_, ?_⟩
+    · have hlt : (mergePositions s1.positions s2.positions).idxOf (s2.positions.getD i d) <
+          (mergePositions s1.positions s2.positions).length := List.idxOf_lt_length_iff.mpr hmem
+      simp only [Mapped.point, mergeMapped, reindex]
+      rw [List.getD_eq_getElem?_getD, List.getElem?_eq_getElem hlt]
+      simp
+    · intro h1
+      have : reindex s1.positions s2.positions d i = s1.positions.idxOf (s2.point d i) := by
+        simp only [reindex, mergePositions, Mapped.point]
+        exact List.idxOf_append_of_mem h1
+      exact ⟨this, this ▸ List.idxOf_lt_length_iff.mpr h1⟩
+    · intro i' h
+      simp only [reindex]
+      simp only [Mapped.point] at h
+      rw [h]
+
+/-- non-vacuity: two quarters sharing an edge (points 11, 12): the second quarter's quad [0,1,2,3] over (11, 14, 15, 12) becomes
+    [1, 4, 5, 2] -/
+example : (mergeMapped (⟨[10, 11, 12, 13], [[0, 1, 2, 3]]⟩ : Mapped Nat) ⟨[11, 14, 15, 12], [[0, 1, 2, 3]]⟩ 0).positions =
+      [10, 11, 12, 13, 14, 15] ∧
+    (mergeMapped (⟨[10, 11, 12, 13], [[0, 1, 2, 3]]⟩ : Mapped Nat) ⟨[11, 14, 15, 12], [[0, 1, 2, 3]]⟩ 0).quads =
+      [[0, 1, 2, 3], [1, 4, 5, 2]] := by decide
 
 /-! ### round sketches and shapes: `decide` on the tables generated from the current source -/
 
